@@ -6,7 +6,10 @@
    Codec line:  the bytes written for `frame` must equal Encode(frame) followed by the CRC-32 of
                 those bytes (Crc.tla), and reading them back must give the same frame.
    Reject line: inputs of the listed kinds must be rejected; arbitrary bytes that do parse must
-                re-encode to something that parses to the same frame. *)
+                re-encode to something that parses to the same frame.
+   Parse line:  for a CRC-valid input (malformed and field-mutated encodings enumerated by TLC from
+                MC_Codec.tla, and seeded mutations of genuine frames) the outcome of the real
+                Frame::read must be exactly Decode(body): the specified frame, or rejection. *)
 EXTENDS TraceIO, Codec, Crc
 
 VARIABLES nvec, nrej, bad
@@ -37,6 +40,15 @@ RejectLine ==
          \cup (IF Cur.parsed /\ ~Cur.reencodes THEN Flag("C16", "parsed-input-does-not-reencode-to-the-same-frame") ELSE {})
     /\ nrej' = nrej + 1 /\ UNCHANGED nvec
 
+ParseLine ==     \* a CRC-valid input: the decoder's outcome must be Decode(body) of Codec.tla - the same frame, or rejection
+    /\ IsEvent("Parse")
+    /\ LET want == Decode(Cur.body) IN
+       bad' = bad
+         \cup (IF want = Rejected /\ Cur.parsed THEN Flag("C16", "malformed-input-accepted") ELSE {})
+         \cup (IF want # Rejected /\ ~Cur.parsed THEN Flag("C16", "well-formed-frame-rejected") ELSE {})
+         \cup (IF want # Rejected /\ Cur.parsed /\ Cur.frame # want THEN Flag("C16", "parsed-frame-differs-from-the-specified-decoding") ELSE {})
+    /\ nrej' = nrej + 1 /\ UNCHANGED nvec
+
 SweepLine ==     \* exhaustive 1..max_weight bit error patterns on a short frame: none may be accepted
     /\ IsEvent("FlipSweep")
     /\ bad' = bad \cup (IF Cur.accepted # 0 THEN Flag("C16", "bit-error-pattern-of-weight-at-most-4-accepted") ELSE {})
@@ -49,7 +61,7 @@ RetLine ==
 
 Skip == /\ IsOneOf({"Reset", "End"}) /\ UNCHANGED <<nvec, nrej, bad>>
 
-Next == CodecLine \/ RejectLine \/ SweepLine \/ RetLine \/ Skip
+Next == CodecLine \/ RejectLine \/ ParseLine \/ SweepLine \/ RetLine \/ Skip
 Spec == Init /\ [][Next]_vars
 
 AtEnd == l = NRec + 1
